@@ -7,6 +7,7 @@ import (
 	"time"
 
 	"github.com/ohler55/slip"
+	"github.com/ohler55/slip/pkg/generic"
 
 	"verifharness/internal/h"
 )
@@ -46,7 +47,8 @@ func c17stress(args []string) {
 			panic(err)
 		}
 		s := slip.NewScope()
-		ev := h.V{"id": st.ID, "kind": st.Kind, "n": st.N, "m": st.M, "cap": st.Cap, "st": "ok", "got": [][][]int{}, "x": -1, "slots": []int{}, "bad": []string{}}
+		ev := h.V{"id": st.ID, "kind": st.Kind, "n": st.N, "m": st.M, "cap": st.Cap, "st": "ok", "got": [][][]int{}, "x": -1, "slots": []int{}, "bad": []string{},
+			"gen": h.V{"a": "", "aok": false, "bok": false, "early": false, "final": ""}}
 		var src strings.Builder
 		switch st.Kind {
 		case "chan", "select":
@@ -84,6 +86,51 @@ func c17stress(args []string) {
 					st.M, k, k, k)
 			}
 			fmt.Fprintf(&src, "(dotimes (i %d) (channel-pop fin))\n", st.N)
+		case "gencache":
+			// a call held inside the critical section of the generic function (hook generic.call.cache-miss) while
+			// another routine redefines the method: see spec/Conc/GenCache.tla
+			if o := h.Eval(s, fmt.Sprintf("(defgeneric c17gc%d (a)) (defmethod c17gc%d ((a fixnum)) 'old) (defmethod c17gc%d ((a string)) 'str)", st.ID, st.ID, st.ID)); !o.OK() {
+				ev["st"] = "err:" + o.Msg
+				out.Emit(ev)
+				return
+			}
+			paused, resume := make(chan struct{}, 1), make(chan struct{})
+			armed := true
+			generic.VerifYield = func(point string) {
+				if armed && point == "generic.call.cache-miss" {
+					armed = false
+					paused <- struct{}{}
+					<-resume
+				}
+			}
+			aDone, bDone := make(chan h.Outcome, 1), make(chan h.Outcome, 1)
+			go func() { aDone <- h.Eval(s, fmt.Sprintf("(c17gc%d 1)", st.ID)) }()
+			select {
+			case <-paused:
+			case <-time.After(3 * time.Second):
+				ev["st"] = "the call never reached the yield point"
+				generic.VerifYield = nil
+				out.Emit(ev)
+				return
+			}
+			go func() { bDone <- h.Eval(s, fmt.Sprintf("(defmethod c17gc%d ((a fixnum)) 'new)", st.ID)) }()
+			early := false
+			var b h.Outcome
+			select {
+			case b = <-bDone:
+				early = true
+			case <-time.After(40 * time.Millisecond):
+			}
+			close(resume)
+			a := <-aDone
+			if !early {
+				b = <-bDone
+			}
+			generic.VerifYield = nil
+			final := h.Eval(s, fmt.Sprintf("(c17gc%d 1)", st.ID))
+			ev["gen"] = h.V{"a": slip.ObjectString(a.Val), "aok": a.OK(), "bok": b.OK(), "early": early, "final": slip.ObjectString(final.Val)}
+			out.Emit(ev)
+			return
 		case "tables":
 			// the interpreter's own shared tables: variables, generic functions and their caches, the printer
 			fmt.Fprintf(&src, "(setq fin (make-channel %d)) (setq errs (make-channel %d))\n(defgeneric c17g%d (a))\n(defmethod c17g%d ((a fixnum)) (list 'fix a))\n",
